@@ -1069,6 +1069,9 @@ class MultiStoreHistories(Unit):
 # =========================================================================== E4 IUP
 IUP_POINTS = [(0, 0), (10, 0), (10, 10), (5, 5), (0, 10), (20, 5)]
 IUP_DELTAS = [(0, 0), (2, 2), (4, 4), (1, 0), (-3, 2), (3, 3)]
+# small deltas (of the order of the tolerance): no point is forced, the optimiser takes its
+# circular dynamic-programming branch
+IUP_DELTAS_SMALL = [(0, 0), (1, 0), (0, -1), (1, -2), (2, 0), (-1, 1)]
 IUP_TOLS = [0, 0.5, 1]
 PHANTOM_C = [(0, 0), (30, 0), (0, 0), (0, 0)]
 PHANTOM_D = [(0, 0), (1, 0), (0, 0), (0, 0)]
@@ -1078,7 +1081,7 @@ class Iup(Unit):
     name = "iup"
     chunk = 2
     rule = ("IUP: outlines of n points over a 6-point coordinate alphabet (incl. repeated, collinear, equal-x/equal-y points) x every delta vector over a 6-delta alphabet, as one contour and/or split in two contours, + 4 phantom points; "
-            "families (n, coordinate atoms, delta atoms, contours): quick (1,6,6,one) (2,6,6,both) (3,6,6,one) (3,6,4,two) (4,4,3,one); thorough (1,6,6,one) (2,6,6,both) (3,6,6,both) (4,6,4,one) (4,4,4,two) (5,4,3,one); x tolerance {0,0.5,1}. Oracle: exact Fraction IUP from the gvar specification. For all 2^n explicit-point subsets iup_delta == reference; "
+            "families (n, coordinate atoms, delta atoms, contours): quick (1,6,6,one) (2,6,6,both) (3,6,6,one) (3,6,4,two) (4,4,3,one) and, over a second alphabet of 6 small deltas of the order of the tolerance, (3,6,4,one) (4,5,4,one); thorough (1,6,6,one) (2,6,6,both) (3,6,6,both) (4,6,4,one) (4,4,4,two) (5,4,3,one), small deltas (3,6,6,both) (4,6,4,one) (5,4,3,one); x tolerance {0,0.5,1}. Oracle: exact Fraction IUP from the gvar specification. For all 2^n explicit-point subsets iup_delta == reference; "
             "iup_delta_optimize never changes an explicit delta, its result re-inferred by the reference is within tolerance (Euclidean) of every original delta and it raises no AssertionError (forced set inside the solution); "
             "non-minimal results and forced points that brute force shows unnecessary are counted only; TupleVariation.optimize (quick: tolerance 0.5 for n<=3; thorough: all) keeps the optimised form only if its compiled size is smaller and never changes values; distinct = each (coords, contours, deltas, tolerance)")
     required_witnesses = ("IUP dropped at least one delta", "optimizer kept every delta", "forced set non-empty", "forced set empty with deltas kept (circular DP)",
@@ -1088,8 +1091,8 @@ class Iup(Unit):
     def spec(self, tier):
         # (n, number of coordinate atoms, number of delta atoms, "single" contour | "split" in two | "both")
         if tier == "quick":
-            return [(1, 6, 6, "single"), (2, 6, 6, "both"), (3, 6, 6, "single"), (3, 6, 4, "split"), (4, 4, 3, "single")]
-        return [(1, 6, 6, "single"), (2, 6, 6, "both"), (3, 6, 6, "both"), (4, 6, 4, "single"), (4, 4, 4, "split"), (5, 4, 3, "single")]
+            return [(1, 6, 6, "single"), (2, 6, 6, "both"), (3, 6, 6, "single"), (3, 6, 4, "split"), (4, 4, 3, "single"), (3, 6, 104, "single"), (4, 5, 104, "single")]
+        return [(1, 6, 6, "single"), (2, 6, 6, "both"), (3, 6, 6, "both"), (4, 6, 4, "single"), (4, 4, 4, "split"), (5, 4, 3, "single"), (3, 6, 106, "both"), (4, 6, 104, "single"), (5, 4, 103, "single")]
 
     def cases(self, tier, seed):
         for n, nc, nd, which in self.spec(tier):
@@ -1102,7 +1105,7 @@ class Iup(Unit):
                     yield [list(cs), ends, nd, -1, tv]
 
     def bounds(self, tier, seed):
-        return {"families(n, coord atoms, delta atoms, contours)": self.spec(tier), "points": IUP_POINTS, "deltas": IUP_DELTAS, "tolerances": IUP_TOLS,
+        return {"families(n, coord atoms, delta atoms, contours)": self.spec(tier), "points": IUP_POINTS, "deltas": IUP_DELTAS, "small_deltas": IUP_DELTAS_SMALL, "tolerances": IUP_TOLS,
                 "phantom": [PHANTOM_C, PHANTOM_D]}
 
     def check(self, case, rec):
@@ -1118,11 +1121,14 @@ class Iup(Unit):
         forced_fn = getattr(IUP, "_iup_contour_bound_forced_set", None)
         masks = list(range(1 << n))
         nev = 0
+        dalpha = IUP_DELTAS
+        if nd >= 100:  # delta atoms 100+k: the first k atoms of the small-delta alphabet
+            dalpha, nd = IUP_DELTAS_SMALL, nd - 100
         first = range(nd) if d0 < 0 else [d0]
         for dhead in first:
             for dtail in itertools.product(range(nd), repeat=n - 1):
                 ds = (dhead,) + dtail
-                deltas = [IUP_DELTAS[i] for i in ds] + PHANTOM_D
+                deltas = [dalpha[i] for i in ds] + PHANTOM_D
                 # ---- all 2^n subsets: implementation vs exact reference (phantoms explicit)
                 inferred = []
                 for mask in masks:
